@@ -3,5 +3,4 @@ CONSTANTS
   Universe = "F"
   MaxLines = 3
 INVARIANT MachineOK
-INVARIANT GenInv
 CHECK_DEADLOCK FALSE
